@@ -89,6 +89,7 @@ def configs(tier: str, seed: int, flavours=("default", "forget", "forest"), pack
                 continue
             for fl in flavours:
                 out.append(("", tuple(pats), "abc", stats[0], pk, fl, "mixed", True))
+    out = list(dict.fromkeys(out))
     rnd.shuffle(out)
     if max_n:
         # configurations that must not be sampled away: the packs that exist for one specific mechanism
